@@ -1,5 +1,6 @@
 import Driver.Codec
 import GldapModel.Generated.Facts
+import GldapModel.Gldap.ControlEncode
 /-! `gmodel`: one line in, one line out. The Go harness feeds the same cases to the real
     gldap and to this driver and diffs the two output streams. -/
 open Ber Gldap Driver
@@ -24,6 +25,23 @@ def doDecode (bs : Bytes) (dec : Option Bytes) : String :=
   let b := serveFrame (mk extFalse) Generated.guards bs
   if a == b then renderOutcome renderMsg a else "unmodelled"
 
+def parseBool (s : String) : Option Bool := if s == "1" then some true else if s == "0" then some false else none
+
+/-- control description shared with the harness: `<kind> <fields...>` -/
+def parseControl : List String → Option Control
+  | ["str", o, c, v] => do pure (.str (← unhex o) (← parseBool c) (← unhex v))
+  | ["dsait", c] => do pure (.manageDsaIT (← parseBool c))
+  | ["paging", sz, ck] => do pure (.paging (← sz.toNat?) (← unhex ck))
+  | ["behera", e, g, er] => do pure (.behera (← e.toInt?) (← g.toInt?) (← er.toInt?))
+  | ["vchumust"] => some .vchuMustChange
+  | ["vchuwarn", e] => do pure (.vchuWarning (← e.toInt?))
+  | ["msnotif"] => some .msNotification
+  | ["msshowdel"] => some .msShowDeleted
+  | ["mslinkttl"] => some .msServerLinkTTL
+  | _ => none
+
+def parseOptNat (s : String) : Option (Option Nat) := if s == "-" then some none else s.toNat?.map some
+
 def handle (line : String) : String :=
   match (line.splitOn " ").filter (· ≠ "") with
   | ["ber", h] => match unhex h with
@@ -33,6 +51,13 @@ def handle (line : String) : String :=
     match unhex h, (if d == "!" then some none else (unhex d).map some) with
     | some bs, some dec => doDecode bs dec
     | _, _ => "bad-input"
+  | "ctrlenc" :: rest => match parseControl rest with
+    | some c => hex (ser (encodeControl c))
+    | none => "bad-input"
+  | ["behera", g, e, c] =>
+    match parseOptNat g, parseOptNat e, parseOptNat c with
+    | some g, some e, some c => renderOutcome renderControl (newBehera Generated.beheraErrRange g e c)
+    | _, _, _ => "bad-input"
   | _ => "bad-op"
 
 partial def loop (h : IO.FS.Stream) (out : IO.FS.Stream) : IO Unit := do
